@@ -110,7 +110,7 @@ def run_case(case):
             ups = list(ret[:attempt])
             before = show()
             try:
-                proof.update(k, v, ups)
+                proof.update(k, v, common.vary(ups))
                 out = "ok"
             except Exception as e:  # noqa
                 out = "exn " + type(e).__name__
